@@ -45,6 +45,7 @@ type crashCtl struct {
 	crashAt int
 	before  bool
 	dead    int32
+	inflight int // durable writes that are inside the store right now
 	deathC  chan struct{}
 	onDeath func()
 	trace   []string
@@ -77,6 +78,19 @@ func (c *crashCtl) arm(n int, before bool) {
 	c.mu.Unlock()
 }
 
+// waitQuiet: after death, wait until no durable write is inside the store any more
+func (c *crashCtl) waitQuiet() {
+	for i := 0; i < 2000; i++ {
+		c.mu.Lock()
+		n := c.inflight
+		c.mu.Unlock()
+		if n == 0 {
+			return
+		}
+		time.Sleep(time.Millisecond)
+	}
+}
+
 func (c *crashCtl) armAbs(k int, before bool) {
 	c.mu.Lock()
 	c.crashAt, c.before = k, before
@@ -104,9 +118,11 @@ func (c *crashCtl) write(kind string, do func() error) error {
 		c.mu.Unlock()
 		select {}
 	}
+	c.inflight++
 	c.mu.Unlock()
 	err := do()
 	c.mu.Lock()
+	c.inflight--
 	if c.isDead() { // killed from outside while the write was in flight: it did reach the store
 		c.mu.Unlock()
 		select {}
